@@ -2,15 +2,14 @@ import J5V.Props.C18
 #print axioms J5V.Props.C18.C18_terminates
 #print axioms J5V.Props.C18.C18_placeholder_first
 #print axioms J5V.Props.C18.C18_names_unique
-#print axioms J5V.Props.C18.collisionWitness_linked
-#print axioms J5V.Props.C18.collisionWitness_panics
-#print axioms J5V.Props.C18.C18_total_counterexample
-#print axioms J5V.Props.C18.C18_total_partial
-#print axioms J5V.Props.C18.C18_cache_total_partial
+#print axioms J5V.Props.C18.C18_total
+#print axioms J5V.Props.C18.C18_cache_total
+#print axioms J5V.Props.C18.C18_collision_is_an_error
 #print axioms J5V.Props.C18.structWitness_reflects
 #print axioms J5V.Props.C18.C18_paths_resolve_counterexample
 #print axioms J5V.Props.C18.C18_paths_resolve_partial
 #print axioms J5V.Props.C18.C18_property_describes_field
+#print axioms J5V.Props.C18.C18_reader_formats_importable
 #print axioms J5V.Props.C18.C18_flatten_terminates
 #print axioms J5V.Props.C18.C18_codec_ok_partial
 #print axioms J5V.Props.C18.C18_src_kind_switches
